@@ -3,3 +3,7 @@
 // as "unsupported construct" (seed C17_5 used `Option::or`). Each is the std documentation's contract, nothing more.
 pub assume_specification<T>[Option::<T>::or](a: Option<T>, b: Option<T>) -> (r: Option<T>)
     ensures r == (if a is Some { a } else { b });
+// `Option::filter`: Some(x) if the option is Some(x) and the predicate accepts x, None otherwise (seed C18_4)
+pub assume_specification<T, P: FnOnce(&T) -> bool>[Option::<T>::filter](o: Option<T>, p: P) -> (r: Option<T>)
+    requires o matches Some(x) ==> p.requires((&x,)),
+    ensures match o { Some(x) => (p.ensures((&x,), true) ==> r == Some(x)) && (p.ensures((&x,), false) ==> r is None) && (r is Some ==> r == o), None => r is None };
